@@ -186,6 +186,9 @@ func (r *Result) Finish(verifDir, tier string, seed int64, started time.Time, ex
 		fmt.Printf("%s: %s %s: %s\n", o.Pos, o.Rule, o.Construct, o.Detail)
 	}
 	evDir := filepath.Join(verifDir, "evidence")
+	if d := os.Getenv("VERIF_EVIDENCE_DIR"); d != "" {
+		evDir = d // self-tests on scratch copies must not overwrite the evidence of the real run
+	}
 	os.MkdirAll(evDir, 0o755)
 	violPath := filepath.Join(evDir, r.Property+".violations.json")
 	if len(newV) > 0 {
